@@ -42,13 +42,18 @@ ASSUMPTIONS = [
     "close is modelled as atomic: the harness lets the other side notice (one or two serve attempts) before comparing; "
     "the order in which the two ends reach `closed` is C11's subject",
     "one direction of lending is modelled (owner A, peer B); the other direction is the same code with roles exchanged",
+    "a nested serve() during `_unbox` (HANDLE_INSPECT of a not-yet-seen class) is modelled for a hand-back request as 'any "
+    "finite sequence of machine operations between the table lookup and the handler'; on the real code it is exercised by "
+    "one baton-mode scenario per run (reply form and request form), not by the manual-delivery histories",
 ]
 EXPLANATION = ("Theorems: the counting invariant (stored+1 = references in flight + live proxy count + releases in flight; "
                "absent key = all zero; handed-back proxies in flight stay resolvable) holds initially and is preserved by "
                "every operation, hence after every finite history over send/fetch/back/finalize/deliver/close for any "
                "number of objects; corollaries alive_while_held, never_keyError, released_when_dropped, "
                "no_leak_at_quiescence, close_releases; application-level histories (hold/drop/collect) refine machine "
-               "histories. The crossing race is replayed as an example.")
+               "histories. The crossing race is replayed as an example. Non-atomic dispatch (a nested serve() during `_unbox`, "
+               "with ANY operations in between): invariant_nested and never_keyError_nested for the order observed on the live "
+               "`_unbox` (generated constant localRefsResolvedFirst), onePass_order_counterexample for the order before e881f31.")
 
 N_OBJS = 3
 
